@@ -766,6 +766,25 @@ namespace
         }
     };
 
+    // adds ONE new key per evaluation; its dictionary input is declared structurally active (wakes on key-set changes) and
+    // is meant to be wired through passive(...): a loop closed through it must go quiet
+    struct VDGrow
+    {
+        static constexpr auto name = "v_dgrow";
+        static void           start(State<Int> n) { n.set(Int{0}); }
+        static void eval(Scalar<"id", Int> id, In<"trigger", TS<Int>> trigger, In<"seen", DInt, InputActivity::Structural, InputValidity::Unchecked> seen,
+                         State<Int> n, NodeView self, DateTime now, Out<DInt> out)
+        {
+            static_cast<void>(seen);
+            FnLog     log(id.value(), self, now);
+            const Int next = n.get() + 1;
+            n.set(next);
+            out.set(next, trigger.value());
+            log.ins({in_rec(trigger)});
+            log.out(static_cast<long>(next)).emit();
+        }
+    };
+
     using DErr = TSD<Int, TS<NodeError>>;
     struct VDErrRec
     {
@@ -1264,7 +1283,7 @@ namespace
             const std::string kind = l.pos.at(2);
             NodeSpec         &sp   = spec_of(id);
             std::vector<P>    in;
-            if (kind != "drec" && kind != "tmap" && kind != "lsuml" && kind != "elem3" && kind != "skeys" && kind != "srec" && kind != "map" && kind != "reduce" && kind != "rrec" && kind != "mesh" && kind != "elem" && kind != "dite")
+            if (kind != "drec" && kind != "dgrow" && kind != "tmap" && kind != "lsuml" && kind != "elem3" && kind != "skeys" && kind != "srec" && kind != "map" && kind != "reduce" && kind != "rrec" && kind != "mesh" && kind != "elem" && kind != "dite")
             {
                 for (auto &r : sp.ins) { in.push_back(resolve(env, r)); }
             }
@@ -1448,6 +1467,11 @@ namespace
                 const int k = static_cast<int>(l.geti("g", 0));
                 auto      d = env.dlports.at(std::stol(sp.ins.at(0)));
                 dispatch_slot<SubG1V>(k, [&]<typename G>() { wire<stdlib::map_sink_>(w, fn<G>(), d); return 0; });
+            }
+            else if (kind == "dgrow")
+            {
+                // in=<trigger>,<dict> (the dictionary is read passively)
+                env.dports.emplace(id, wire<VDGrow>(w, sid, resolve(env, sp.ins.at(0)), passive(env.dports.at(std::stol(sp.ins.at(1))))));
             }
             else if (kind == "skeys") { env.sports.emplace(id, wire<VSKeys>(w, env.dports.at(std::stol(sp.ins.at(0))))); }
             else if (kind == "srec") { wire<VSRec>(w, sid, env.sports.at(std::stol(sp.ins.at(0)))); }
